@@ -198,12 +198,13 @@ def explore(fn, budget_s=60.0, per_path_timeout=20.0, max_violations=3,
                     st['confirmed'] += 1
                     if CTX.reached:
                         st['reached'] += 1
-                        CTX.key = deep_realize(CTX.key)
-                        CTX.sample = deep_realize(CTX.sample)
+                        # Realising a symbolic value adds decisions to the path tree, so
+                        # samples are only written out for the first few paths and keys
+                        # must be concrete (E tier) or None (S tier).
                         if count_keys and CTX.key is not None:
                             keys.add(hash(CTX.key))
                         if CTX.sample is not None and len(st['samples']) < max_samples:
-                            st['samples'].append(_jsonable(CTX.sample))
+                            st['samples'].append(_jsonable(deep_realize(CTX.sample)))
             except _KnownHit:
                 status = VerificationStatus.CONFIRMED
             except IgnoreAttempt:
